@@ -84,7 +84,10 @@ def gen_program(rng: random.Random, mapping: str, big: bool = False) -> dict:
     base = 0xC25000 if rom == "high" else 0x03A000
     overlap = [{"k": "org", "e": E(base + 0x10)}, {"k": "data", "d": "db", "es": [E(0x11)] * 8},
                {"k": "org", "e": E(base + 0x0C)}, {"k": "data", "d": "db", "es": [E(0x22)] * 8}]      # the later statement wins where blocks overlap
-    p["prog"] = p["prog"] + tail + (overlap if rng.random() < 0.5 else [])
+    if rng.random() < 0.5:
+        # written, partly overwritten, written again with the same bytes at the same place: the last statement wins again
+        overlap += overlap[:2]
+    p["prog"] = p["prog"] + tail + (overlap if rng.random() < 0.6 else [])
     p["mapping"] = mapping
     return p
 
